@@ -101,7 +101,8 @@ func Run(prop string) func(c *hl.Ctx) error {
 		if prop == "C36" {
 			RunImports(c, r, c.Pick(300, 20000))
 		}
-		nh := c.Pick(map[string]int{"C36": 150, "C37": 200, "C38": 220, "C39": 220, "C40": 220, "C41": 130}[prop], 2500)
+		nh := c.Pick(map[string]int{"C36": 150, "C37": 200, "C38": 220, "C39": 220, "C40": 220, "C41": 130}[prop],
+			map[string]int{"C36": 1500, "C37": 2500, "C38": 2500, "C39": 2500, "C40": 2500, "C41": 1200}[prop])
 		for h := 0; h < nh; h++ {
 			gen := &Gen{R: r, MaxTop: 4, MaxDepth: 2, Boards: prop == "C41" || h%3 == 0, ForceBoard: prop == "C41",
 				Tricky: h%4 == 3, MultiRef: h%2 == 1 && os.Getenv("D2V_EDIT_NESTED") == "", Count: c.Count, Nested: os.Getenv("D2V_EDIT_NESTED") != ""}
